@@ -360,6 +360,8 @@ class RelativeOperand(Operand):
         self.value = value if value else Value.create_from_str(operand_string, instruction)
 
     def translate(self):
+        if self.operand_string[:1] in ["#", "<", ">", "["] or "," in self.operand_string or not self.value.is_address():
+            raise OperandTypeError("[{}] branch target must be a label".format(self.operand_string))
         return CodePackage(
             op_code=NumericValue(self.instruction.mode.rel),
             additional=self.value if self.value.is_address() else NoneValue(),
